@@ -38,6 +38,7 @@ var c35Assumptions = []string{
 	"actors insert rows with primary keys from a per-case counter and create tables with unique names, so merges made by dolt_pull never conflict; working sets are clean whenever a pull runs",
 	"dolt_fetch is not required to prune remote-tracking refs of branches deleted on the remote, nor to bring tags whose commits are not reachable from a fetched branch",
 	"a remote branch is deleted (push origin :b) only by an actor that has the remote-tracking ref of b (it fetches first otherwise): without it dolt deletes the remote branch and then reports 'branch not found' for the tracking ref",
+	"deleting a remote branch is retried with --force when dolt refuses it with 'target has uncommitted changes' (a force push leaves a working set for the branch on the file remote, later fast-forward pushes do not move it); remote branch deletion is not part of the property, only its effect on the refs is modelled",
 	"identical commit hashes are taken to mean identical history (content addressing); what is compared per ref is the SQL rendering of hash, log, schemas and rows",
 }
 
@@ -684,7 +685,15 @@ func c35Run(rt *rapid.T, srv *vsql.Server, admin *vsql.Session, scratch string, 
 				// the deleting clone has never seen the branch; the generator lets it fetch first
 				c.fetch(act)
 			}
-			c.x(act.se, "CALL dolt_push('origin', ':"+br+"')")
+			if err := c.xe(act.se, "CALL dolt_push('origin', ':"+br+"')"); err != nil {
+				// a branch that was once force-pushed keeps a working set on the remote which later
+				// fast-forward pushes leave behind; dolt then asks for --force to delete the branch
+				if !strings.Contains(err.Error(), "uncommitted changes") {
+					c.fatalf("deleting remote branch %s: %v", br, err)
+				}
+				c.x(act.se, "CALL dolt_push('--force', 'origin', ':"+br+"')")
+				c.special["delete_needed_force"] = true
+			}
 			delete(c.rBranch, br)
 			c.special["remote_branch_deleted"] = true
 			c.checkRemote(fmt.Sprintf("after %s deleted remote branch %s", act.name, br))
@@ -771,10 +780,10 @@ func c35Run(rt *rapid.T, srv *vsql.Server, admin *vsql.Session, scratch string, 
 	c.checkRemote("at the end")
 	nSpecial := 0
 	var classes []string
-	for _, k := range []string{"rejected_push", "forced_non_ff", "merge_pull", "remote_branch_deleted", "race", "backup", "backup_dirty"} {
+	for _, k := range []string{"rejected_push", "forced_non_ff", "merge_pull", "remote_branch_deleted", "race", "backup", "backup_dirty", "delete_needed_force"} {
 		if c.special[k] {
 			classes = append(classes, k)
-			if k != "backup" && k != "backup_dirty" {
+			if k != "backup" && k != "backup_dirty" && k != "delete_needed_force" {
 				nSpecial++
 			}
 		}
